@@ -51,6 +51,7 @@ struct Issued
   int kind = 0;
   int result = -3; // 1 enqueued, 0 dropped, -1 below level, -2 threw, -3 never returned
   uint64_t invoke_seq = 0, return_seq = 0, invoke_vt = 0, return_vt = 0;
+  int64_t first_clock = 0; // first wall clock value the caller read inside the call (0: none recorded)
   std::string expected;
   int64_t fault_bits = 0;
   int site = 0;
